@@ -40,6 +40,10 @@ func init() {
 		badPairs[[2]string{a, "="}] = true
 	}
 	badPairs[[2]string{"ident", "() block"}] = true
+	// pairs of the CSS Syntax serialization table that the loops above do not produce
+	badPairs[[2]string{"#", "-"}] = true
+	badPairs[[2]string{"-", "-"}] = true
+	badPairs[[2]string{"number", "%"}] = true
 	badPairs[[2]string{"ident", "+"}] = true // "u" followed by "+" would start a unicode-range
 	badPairs[[2]string{"|", "|"}] = true
 	badPairs[[2]string{"/", "*"}] = true
